@@ -168,14 +168,15 @@ static char *textbuf;
 static volatile uint64_t sink;
 enum { E_VERIFY, E_TRAVERSE, E_TOSTRING_NULL, E_TOSTRING, E_PRINT, E_LOOKUPS, E_RAW_WRITER, E_WRITE_PAYLOAD, E_NENTRY };
 static const char *const entry_name[E_NENTRY] = { "verify", "full traversal (next / go_into / leave)", "to_string(NULL)", "to_string(buffer)", "print", "field lookups (hits and misses)", "get_raw + writer", "writer: string / bytes / raw of n bytes from a disjoint source and from sources overlapping the destination" };
+static int traverse_kind;
 static void traverse_all(binson_parser *p)
 {
     /* iterative full traversal: enter every container, then leave */
     int depth = 0;
     char kinds[600];
-    bool r = p->type == 1 ? p_binson_parser_go_into_object(p) : p_binson_parser_go_into_array(p);
+    bool r = traverse_kind == VK_OBJ ? p_binson_parser_go_into_object(p) : p_binson_parser_go_into_array(p);
     if (!r) return;
-    kinds[depth++] = p->type == 1 ? 'O' : 'A';
+    kinds[depth++] = traverse_kind == VK_OBJ ? 'O' : 'A';
     while (depth > 0) {
         if (p_binson_parser_next(p)) {
             binson_type t = p->current_state->current_type;
@@ -200,7 +201,7 @@ static void *job_thread(void *arg)
     size_t sz;
     switch (j->entry) {
     case E_VERIFY: if (!p_binson_parser_verify(&p)) return (void *) 1; break;
-    case E_TRAVERSE: traverse_all(&p); if (p.error_flags) return (void *) 1; break;
+    case E_TRAVERSE: traverse_kind = j->kind; traverse_all(&p); if (p.error_flags) return (void *) 1; break;
     case E_TOSTRING_NULL: sz = 0; p_binson_parser_to_string(&p, NULL, &sz, false); if (sz == 0) return (void *) 1; break;
     case E_TOSTRING: sz = 1 << 20; if (!p_binson_parser_to_string(&p, textbuf, &sz, false)) return (void *) 1; break;
     case E_PRINT: if (!p_binson_parser_print(&p)) return (void *) 1; break;
